@@ -16,6 +16,14 @@ def is_fault(d):
     return ' @' in d['op']
 
 
+def threw(d):
+    for k in ('impl', 'model'):
+        f = vlib.fields(d.get(k, ''))
+        if f and f[5].split(' ')[0] != '-':
+            return True
+    return False
+
+
 def load_map():
     return json.load(open(os.path.join(vlib.VERIF, 'properties.map.json')))
 
@@ -30,7 +38,8 @@ D_RULES = {
     'C03': dict(channels=['life'], keep=lambda d: True),
     'C04': dict(channels=['ledger'], keep=lambda d: True),
     'C05': dict(channels=['val', 'shape', 'life', 'ledger', 'exc'], keep=lambda d: is_fault(d) and opk(d) in GROWING),
-    'C06': dict(channels=['val', 'shape', 'life', 'ledger', 'exc'], keep=lambda d: True),
+    # C06 is about what a throw leaves behind: lines with an injected fault, or on which either side threw
+    'C06': dict(channels=['val', 'shape', 'life', 'ledger', 'exc'], keep=lambda d: is_fault(d) or threw(d)),
     'C07': dict(channels=['alloc'], keep=lambda d: True),
     'C09': dict(channels=['shape', 'life'], keep=lambda d: opk(d) in ('newm', 'asm', 'swp')),
     'C10': dict(channels=['shape', 'ledger'], keep=lambda d: not is_fault(d)),
